@@ -94,7 +94,7 @@ PROPS = {
         "facts": [srcgen.src_facts],
         "runs": [LIFE_RUN],
         "oracles": ["c03-"], "cs": cs_life.C03_CS,
-        "rule": "case = (epoll mode, NPoller, write-buffer limit, listener, AsyncReadInPoller, history over up to four conns of kinds added/dialed/UDP listener+"
+        "rule": "case = (epoll mode, NPoller, write-buffer limit, listener, AsyncReadInPoller, connection table normal / too small, history over up to four conns of kinds added/dialed/UDP listener+"
                 "sessions/accepted/really dialed: traffic, scripted kernel answers, dial outcomes, k concurrent closers with distinct "
                 "errors, deadlines, operations after close, Stop); distinct by hash of (configuration, op kinds with flags/answers/"
                 "closer counts/dial outcome/timer cause); non-trivial iff a conn was closed, dialed or hit by an event",
